@@ -126,7 +126,24 @@ class FakeNp:
         out = []
         for p in parts:
             out.extend(list(p))
-        return out
+        return SymArray(out)
+
+    def asarray(self, x, *a, **k):
+        return SymArray(list(x)) if isinstance(x, (list, tuple)) else x
+
+    def stack(self, parts, axis=0, **k):
+        if axis != 0:
+            raise AnalysisError('np.stack along an axis other than 0 has no model in the symbolic domain')
+        return SymArray([p.tolist() if isinstance(p, SymArray) else list(p) for p in parts])
+
+    def diag(self, v, k=0):
+        if k != 0:
+            raise AnalysisError('np.diag with an offset has no model in the symbolic domain')
+        v = v.tolist() if isinstance(v, SymArray) else list(v)
+        if v and isinstance(v[0], (list, tuple)):
+            return SymArray([v[i][i] for i in range(min(len(v), len(v[0])))])
+        n = len(v)
+        return SymArray([[v[i] if i == j else sp.Integer(0) for j in range(n)] for i in range(n)])
 
 
 class C14Domain:
